@@ -54,6 +54,8 @@ def _restore_state(eng, state):
 
 
 def scan(f, init, xs=None, length=None, reverse=False, unroll=1, **kw):
+    if kw:
+        raise EngineLimit("jax.lax.scan with %s" % ", ".join(kw))
     Assumed.note("jax.lax.scan: carry threaded through T = length iterations over the leading axis of xs, outputs stacked (induction schema: C(0)=init, C(t+1)=step(C(t), xs[t]))")
     eng = engine()
     if isinstance(length, Sym):
